@@ -183,8 +183,8 @@ func paramClass(cs *refexp.Case) string {
 		return "var-nonnull"
 	case "@", "*":
 		return cs.Param + fmt.Sprint(min(len(cs.Args), 2))
-	case "1", "2", "10":
-		n := map[string]int{"1": 1, "2": 2, "10": 10}[cs.Param]
+	case "1", "2", "10", "08", "010", "09":
+		n := map[string]int{"1": 1, "2": 2, "10": 10, "08": 8, "010": 10, "09": 9}[cs.Param]
 		switch {
 		case n > len(cs.Args):
 			return "pos-unset"
@@ -247,7 +247,7 @@ func c13Gen(c *core.Ctx) {
 		if p.Name == "#" && cs.Op != "len" {
 			cs.Op = ""
 		}
-		cs.Braces = cs.Op == "" && (p.Name == "10" || r.IntN(2) == 0)
+		cs.Braces = cs.Op == "" && (len(p.Name) > 1 && p.Name[0] >= '0' && p.Name[0] <= '9' || r.IntN(2) == 0)
 		ws := refexp.Words(cs.Op, cs.Value)
 		cs.Word = append([]refexp.WP(nil), pick(r, ws)...)
 		if cs.Op != "" && cs.Op != "len" && r.IntN(2) == 0 {
